@@ -28,6 +28,7 @@ from coco.b09.elements import (
     BasicStatement,
     BasicStatements,
     BasicVar,
+    HexLiteral,
 )
 
 if TYPE_CHECKING:
@@ -425,8 +426,11 @@ class BasicEmptyDataElementVisitor(BasicConstructVisitor):
 class BasicReadStatementPatcherVisitor(BasicConstructVisitor):
     def visit_data_statement(self, statement: BasicDataStatement):
         exp: AbstractBasicExpression
-        for exp in statement.exp_list.exp_list:
-            if not isinstance(exp.literal, str):
+        exp_list = statement.exp_list.exp_list
+        for idx, exp in enumerate(exp_list):
+            if isinstance(exp, HexLiteral):
+                exp_list[idx] = BasicLiteral(str(exp.literal), is_str_expr=True)
+            elif not isinstance(exp.literal, str):
                 exp.literal = str(exp.literal)
 
     def visit_read_statement(self, statement: BasicReadStatement):
